@@ -291,7 +291,7 @@ def build(case, sched, callback_log=None):
     return b
 
 
-def run(case, dispose_at=None, dispose_early=False, horizon=2000, subscribe_at=200, dispose_in=None):
+def run(case, dispose_at=None, dispose_early=False, horizon=2000, subscribe_at=200, dispose_in=None, sub_raises=False):
     """Run one case on a fresh TestScheduler. Returns recorder log, per-source subscription lists, callback times,
     exceptions that escaped into the scheduler, and (if disposing) the dispose time."""
     from reactivex.testing import TestScheduler
@@ -316,8 +316,21 @@ def run(case, dispose_at=None, dispose_early=False, horizon=2000, subscribe_at=2
             seen[0] += 1
         return g
 
+    def raising(f):
+        # sub_raises: the subscriber's terminal handler raises after having received the notification
+        def g(*a):
+            f(*a)
+            raise SubscriberFailure("subscriber's terminal handler failed")
+        return g
+
     def sub(s, st):
-        handle["d"] = b.obs.subscribe(hooked(rec.on_next), hooked(rec.on_error), hooked(rec.on_completed), scheduler=sched)
+        on_e, on_c = hooked(rec.on_error), hooked(rec.on_completed)
+        if sub_raises:
+            on_e, on_c = raising(on_e), raising(on_c)
+        try:
+            handle["d"] = b.obs.subscribe(hooked(rec.on_next), on_e, on_c, scheduler=sched)
+        except SubscriberFailure:
+            escaped.append("SubscriberFailure")   # the terminal was delivered inside subscribe()
         if handle.get("pending"):
             handle["d"].dispose()
             handle["disposed_at"] = int(sched.clock)
@@ -347,6 +360,10 @@ def run(case, dispose_at=None, dispose_early=False, horizon=2000, subscribe_at=2
         out["log_len_at_dispose"] = handle.get("log_len")
         out["cb_len_at_dispose"] = handle.get("cb_len")
     return out
+
+
+class SubscriberFailure(Exception):
+    pass
 
 
 def _do_dispose(handle, sched):
